@@ -148,7 +148,7 @@ func TestSwtOutside(t *testing.T) {
 			in++
 		case strings.HasPrefix(ans, "(swt false true"):
 			out++
-			if shown < 25 && len(src) < 700 {
+			if shown < 25 && len(src) < 4000 {
 				shown++
 				fmt.Printf("---- outside:\n%s\n", src)
 			}
